@@ -58,6 +58,19 @@ theorem genSingleJsonInput_eq (l : List Char) : genSingleJsonInput l = '"' :: si
 theorem genDoubleJsonInput_eq (l : List Char) : genDoubleJsonInput l = '"' :: l ++ ['"'] := by
   simp [genDoubleJsonInput, EscapeGo.doublePrefix, EscapeGo.doubleSuffix]
 
+theorem jsonUnmarshalQuoted_quoted (t : List Char) :
+    jsonUnmarshalQuoted ('"' :: t ++ ['"']) = jsonUnquote t := by
+  simp [jsonUnmarshalQuoted]
+
+/-- what the regenerated `unescapeSingleQuotedString` computes (`none`: it panics with
+    ErrorInvalidArgument) is the model `unescapeSingle` -/
+theorem gen_unescapeSingle (l : List Char) : jsonUnmarshalQuoted (genSingleJsonInput l) = unescapeSingle l := by
+  rw [genSingleJsonInput_eq, jsonUnmarshalQuoted_quoted]; rfl
+
+/-- what the regenerated `unescapeDoubleQuotedString` computes is the model `unescapeDouble` -/
+theorem gen_unescapeDouble (l : List Char) : jsonUnmarshalQuoted (genDoubleJsonInput l) = unescapeDouble l := by
+  rw [genDoubleJsonInput_eq, jsonUnmarshalQuoted_quoted]; rfl
+
 /-- bytes ≥ 0x80 (all bytes of non-ASCII characters in UTF-8) are copied, preceded by a backslash
     exactly if the flag was set, and clear the flag -/
 theorem gen_singleStep_high (flag : Bool) (b : Nat) (h : 128 ≤ b) :
